@@ -60,6 +60,26 @@ def forge(cfg, req, mac, flag_auth, flag_priv, body, seed, walk=False, form="con
             m = bytes(12)
     elif mac == "wrong-key":
         m = refcrypto.mac_of_message(cfg.auth, refcrypto.localize(cfg.auth, b"k" * refcrypto.KEYLEN[cfg.auth], cfg.engine_id), msg, off)
+    elif mac.startswith("xor"):
+        # several octets changed so that the differences cancel under XOR / sum (a folded comparison would accept)
+        parts = [int(x) for x in mac[3:].split("-")]
+        m = bytearray(good)
+        if len(parts) == 3:
+            i, j, mask = parts
+            m[i] ^= mask
+            m[j] ^= mask
+        else:
+            i, j, k, a, b = parts
+            m[i] ^= a
+            m[j] ^= b
+            m[k] ^= a ^ b
+        m = bytes(m)
+    elif mac.startswith("sum"):
+        i, j, d = [int(x) for x in mac[3:].split("-")]
+        m = bytearray(good)
+        m[i] = (m[i] + d) & 0xFF
+        m[j] = (m[j] - d) & 0xFF
+        m = bytes(m)
     else:
         bit = int(mac[3:])
         m = bytearray(good)
@@ -158,6 +178,8 @@ def work(chunk):
         res.outcome(c1)
         want = must_deliver(cfg, case["mac"], case["flag_auth"], case["flag_priv"], case["body"], case.get("form", "consistent"))
         macc = case["mac"] if not case["mac"].startswith("bit") else "bitflip"
+        if macc.startswith("xor") or macc.startswith("sum"):
+            macc = "cancelling-" + macc[:3]
         sig_tail = ("flags-body-mismatch/" if case.get("form", "consistent") != "consistent" else "") + "%s/%s-%s/mac=%s/auth=%d/priv=%d/%s" % (
             case["op"],
             drivers.AUTH_NAMES[cfg.auth],
@@ -272,6 +294,19 @@ def run_route(case):
         data = w.take_request()
         if o.kind != "ok" or data is None:
             return "not-sent", None
+        if route == "in-flight":
+            # the request left under the anonymous discovery user; the keys are installed while it is in flight;
+            # then a reply without any authentication arrives
+            eid, user, a_alg, a_key, p_alg, p_key = cfg.raw_args(report_eid)
+            drivers.call(w.sock.set_keys, user, a_alg, a_key, p_alg, p_key)
+            q = rb.parse_message(data, strict=False)
+            for uname in (cfg.user, ""):
+                pdu = rb.build_pdu(rb.PDU_RESPONSE, q.request_id if q.request_id is not None else rid, 0, 0, [(SYS, rb.enc_octets(b"FORGED"))])
+                w.inject(rb.build_v3(q.msg_id, 0, rb.build_usm(q.engine_id or real_eid, q.boots, q.time, uname, b"", b""), rb.build_scoped(q.engine_id or real_eid, b"", pdu)))
+                out = w.recv("get")
+                if classify_out(out, "get") != "skipped":
+                    break
+            return classify_out(out, "get"), out
         q = rb.parse_message(data, strict=False)
         if q.request_id is not None:
             rid = q.request_id
@@ -372,6 +407,7 @@ def gen_routes(tier):
                 for key in GUESS_KEYS:
                     for encrypt in (True, False) if priv else (False,):
                         yield {"kind": "route", "cfg": cfg.describe(), "route": route, "report_eid": report_eid, "key": key, "encrypt": encrypt}
+            yield {"kind": "route", "cfg": cfg.describe(), "route": "in-flight", "report_eid": "real", "key": "none", "encrypt": False}
     for driver in ("sync", "async"):
         for auth, priv in ((1, 0), (2, 0), (2, 2)):
             cfg = Cfg("v3", auth=auth, priv=priv, discover=True)
@@ -393,6 +429,14 @@ def gen_cases(tier):
                         yield {"cfg": cfg.describe(), "op": op, "body": body, "flag_auth": flag_auth, "flag_priv": flag_priv, "mac": mac}
                         if priv and mac in ("valid", "zero", "absent") :
                             yield {"cfg": cfg.describe(), "op": op, "body": body, "flag_auth": flag_auth, "flag_priv": flag_priv, "mac": mac, "form": "mismatch"}
+    # MACs whose differences from the valid one cancel out (pairs / triples of octets)
+    cancel = ["xor%d-%d-%d" % (i, j, mask) for i in range(12) for j in range(i + 1, 12) for mask in (0x01, 0x80, 0xFF)]
+    cancel += ["xor%d-%d-%d-%d-%d" % (i, (i + 5) % 12, (i + 9) % 12, 0x0F, 0x3C) for i in range(12)]
+    cancel += ["sum%d-%d-%d" % (i, (i + 7) % 12, d) for i in range(12) for d in (1, 0x80)]
+    for auth, priv in itertools.product((1, 2), (0, 1, 2)):
+        cfg = Cfg("v3", auth=auth, priv=priv)
+        for mac in cancel if thorough or priv != 1 else cancel[::3]:
+            yield {"cfg": cfg.describe(), "op": "get", "body": "GetResponse", "flag_auth": 1, "flag_priv": 1 if priv else 0, "mac": mac}
     # noAuth sessions: nothing to verify, plain replies are delivered
     cfg = Cfg("v3")
     for op in ("get", "refresh"):
@@ -417,8 +461,8 @@ def run(tier):
     common.prepare_stage()
     rec = common.Recorder(PROPERTY, tier, LEVEL, MODULE)
     rec.rule = (
-        "otherwise-matching reply x MAC in {valid, zero, random, wrong key, absent, short, long, each of the 96 single-bit flips} x auth flag x priv flag (ciphertext / plaintext) x "
-        "{GetResponse, Report} x {MD5,SHA1} x {none,DES,AES} x pending operation, each followed by the genuine reply; after engine-id discovery by 4 routes (socket created without engine id / set_keys after discovery x Report carrying the real or an EMPTY engine id) "
+        "otherwise-matching reply x MAC in {valid, zero, random, wrong key, absent, short, long, each of the 96 single-bit flips, octet pairs / triples whose differences cancel under XOR or sum} x auth flag x priv flag (ciphertext / plaintext) x "
+        "{GetResponse, Report} x {MD5,SHA1} x {none,DES,AES} x pending operation, each followed by the genuine reply; after engine-id discovery by 4 routes (socket created without engine id / set_keys after discovery x Report carrying the real or an EMPTY engine id; keys installed while a request sent under the anonymous user is in flight, then a reply with msgFlags 0) "
         "a reply authenticated (and encrypted) under each key anybody can compute {all-zero, zero master localized to the engine id / to the empty id, user name}; public clients with the first discovery datagram lost, "
         "refresh retried, then a reply with msgFlags 0. Non-trivial: every case (all are distinct forgeries)."
     )
